@@ -911,6 +911,10 @@ func (c *Conn) advanceFrame() (int, error) {
 			if !utf8.ValidString(closeText) {
 				return noFrame, c.handleProtocolError("invalid utf8 payload in close frame")
 			}
+		} else if len(payload) == 1 {
+			// If there is a body, the first two bytes of the body MUST be the
+			// status code, see section 5.5.1 of RFC 6455.
+			return noFrame, c.handleProtocolError("invalid close payload")
 		}
 		if err := c.handleClose(closeCode, closeText); err != nil {
 			return noFrame, err
